@@ -59,9 +59,9 @@ pub mod h_names {
 pub mod h_c14 {
     use super::*;
     harnesses! {
+        #[kani::unwind(7)] text_3_nozone => p_text::from_str::<_, 3, false>;
+        #[kani::unwind(11)] text_3_zone => p_text::from_str::<_, 3, true>;
         #[kani::unwind(8)] text_4_nozone => p_text::from_str::<_, 4, false>;
-        #[kani::unwind(12)] text_4_zone => p_text::from_str::<_, 4, true>;
-        #[kani::unwind(9)] text_5_nozone => p_text::from_str::<_, 5, false>;
         #[kani::unwind(270)] text_b_61_100 => p_text::from_str_boundary::<_, 61, 100>;
         #[kani::unwind(270)] text_b_62_100 => p_text::from_str_boundary::<_, 62, 100>;
         #[kani::unwind(270)] text_b_63_100 => p_text::from_str_boundary::<_, 63, 100>;
@@ -80,6 +80,8 @@ pub mod h_c14 {
 pub mod h_c14_t {
     use super::*;
     harnesses! {
+        #[kani::unwind(12)] text_4_zone => p_text::from_str::<_, 4, true>;
+        #[kani::unwind(9)] text_5_nozone => p_text::from_str::<_, 5, false>;
         #[kani::unwind(10)] text_6_nozone => p_text::from_str::<_, 6, false>;
         #[kani::unwind(14)] text_6_zone => p_text::from_str::<_, 6, true>;
         #[kani::unwind(11)] text_7_nozone => p_text::from_str::<_, 7, false>;
@@ -98,7 +100,7 @@ pub mod h_c17 {
         #[kani::unwind(200)] pure_uncompress => p_pure::purity::<_, skel_gen::SkRCnameChain, skel_gen::SkRMxSoa, 1>;
         #[kani::unwind(260)] pure_compress => p_pure::purity::<_, skel_gen::SkRNocompSoa, skel_gen::SkRNocomp2, 2>;
         #[kani::unwind(260)] pure_rename => p_pure::purity::<_, skel_gen::SkRNocompSoa, skel_gen::SkRNocomp2, 3>;
-        #[kani::unwind(80)] pure_synth => p_pure::purity_synth;
+        #[kani::stub(backtrace::backtrace::trace, crate::p_synth::trace_stub)] #[kani::unwind(80)] pure_synth => p_pure::purity_synth;
     }
 }
 
@@ -165,22 +167,10 @@ pub mod h_c13 {
         #[kani::unwind(40)] synth_build_txt => p_synth::builders::<_, 8>;
         #[kani::unwind(300)] synth_txt_255 => p_synth::txt_chunks::<_, 255>;
         #[kani::unwind(300)] synth_txt_256 => p_synth::txt_chunks::<_, 256>;
-        #[kani::unwind(60)] synth_tpl_ttl_digit => p_synth::template::<_, 0>;
-        #[kani::unwind(60)] synth_tpl_ttl_edge => p_synth::template::<_, 1>;
-        #[kani::unwind(60)] synth_tpl_octet_edge => p_synth::template::<_, 2>;
-        #[kani::unwind(60)] synth_tpl_separator => p_synth::template::<_, 3>;
-        #[kani::unwind(60)] synth_tpl_keyword_case => p_synth::template::<_, 4>;
-        #[kani::unwind(60)] synth_tpl_mx_pref_edge => p_synth::template::<_, 5>;
-        #[kani::unwind(60)] synth_tpl_txt_char => p_synth::template::<_, 6>;
-        #[kani::unwind(60)] synth_tpl_txt_escape => p_synth::template::<_, 7>;
-        #[kani::unwind(60)] synth_tpl_ds_hex => p_synth::template::<_, 8>;
-        #[kani::unwind(60)] synth_tpl_owner_char => p_synth::template::<_, 9>;
-        #[kani::unwind(80)] synth_tpl_soa_counter => p_synth::template::<_, 10>;
-        #[kani::unwind(60)] synth_tpl_txt_escape_first => p_synth::template::<_, 11>;
-        #[kani::unwind(12)] synth_arbitrary_3 => p_synth::arbitrary::<_, 3>;
-        #[kani::unwind(140)] synth_insert_a_an => p_synth::insert_text::<_, skel_gen::SkRAAaaa, 1, 0>;
-        #[kani::unwind(140)] synth_insert_mx_ns => p_synth::insert_text::<_, skel_gen::SkRAAaaa, 2, 5>;
-        #[kani::unwind(140)] synth_insert_txt_ar => p_synth::insert_text::<_, skel_gen::SkRAAaaa, 3, 8>;
+        #[kani::stub(backtrace::backtrace::trace, crate::p_synth::trace_stub)] #[kani::unwind(60)] synth_tpl_ns_lastchar => p_synth::template::<_, 12>;
+        #[kani::stub(backtrace::backtrace::trace, crate::p_synth::trace_stub)] #[kani::unwind(60)] synth_tpl_octet_edge => p_synth::template::<_, 2>;
+        #[kani::stub(backtrace::backtrace::trace, crate::p_synth::trace_stub)] #[kani::unwind(140)] synth_insert_a_an => p_synth::insert_text::<_, skel_gen::SkRAAaaa, 1, 0>;
+        #[kani::stub(backtrace::backtrace::trace, crate::p_synth::trace_stub)] #[kani::unwind(140)] synth_insert_mx_ns => p_synth::insert_text::<_, skel_gen::SkRAAaaa, 2, 5>;
     }
 }
 
@@ -188,18 +178,31 @@ pub mod h_c13 {
 pub mod h_c13_t {
     use super::*;
     harnesses! {
-        #[kani::unwind(12)] synth_arbitrary_4 => p_synth::arbitrary::<_, 4>;
-        #[kani::unwind(12)] synth_arbitrary_5 => p_synth::arbitrary::<_, 5>;
+        #[kani::stub(backtrace::backtrace::trace, crate::p_synth::trace_stub)] #[kani::unwind(60)] synth_tpl_ttl_digit => p_synth::template::<_, 0>;
+        #[kani::stub(backtrace::backtrace::trace, crate::p_synth::trace_stub)] #[kani::unwind(60)] synth_tpl_ttl_edge => p_synth::template::<_, 1>;
+        #[kani::stub(backtrace::backtrace::trace, crate::p_synth::trace_stub)] #[kani::unwind(60)] synth_tpl_separator => p_synth::template::<_, 3>;
+        #[kani::stub(backtrace::backtrace::trace, crate::p_synth::trace_stub)] #[kani::unwind(60)] synth_tpl_keyword_case => p_synth::template::<_, 4>;
+        #[kani::stub(backtrace::backtrace::trace, crate::p_synth::trace_stub)] #[kani::unwind(60)] synth_tpl_mx_pref_edge => p_synth::template::<_, 5>;
+        #[kani::stub(backtrace::backtrace::trace, crate::p_synth::trace_stub)] #[kani::unwind(60)] synth_tpl_txt_char => p_synth::template::<_, 6>;
+        #[kani::stub(backtrace::backtrace::trace, crate::p_synth::trace_stub)] #[kani::unwind(60)] synth_tpl_txt_escape => p_synth::template::<_, 7>;
+        #[kani::stub(backtrace::backtrace::trace, crate::p_synth::trace_stub)] #[kani::unwind(60)] synth_tpl_ds_hex => p_synth::template::<_, 8>;
+        #[kani::stub(backtrace::backtrace::trace, crate::p_synth::trace_stub)] #[kani::unwind(60)] synth_tpl_owner_char => p_synth::template::<_, 9>;
+        #[kani::stub(backtrace::backtrace::trace, crate::p_synth::trace_stub)] #[kani::unwind(80)] synth_tpl_soa_counter => p_synth::template::<_, 10>;
+        #[kani::stub(backtrace::backtrace::trace, crate::p_synth::trace_stub)] #[kani::unwind(60)] synth_tpl_txt_escape_first => p_synth::template::<_, 11>;
+        #[kani::stub(backtrace::backtrace::trace, crate::p_synth::trace_stub)] #[kani::unwind(12)] synth_arbitrary_3 => p_synth::arbitrary::<_, 3>;
+        #[kani::stub(backtrace::backtrace::trace, crate::p_synth::trace_stub)] #[kani::unwind(140)] synth_insert_txt_ar => p_synth::insert_text::<_, skel_gen::SkRAAaaa, 3, 8>;
+        #[kani::stub(backtrace::backtrace::trace, crate::p_synth::trace_stub)] #[kani::unwind(12)] synth_arbitrary_4 => p_synth::arbitrary::<_, 4>;
+        #[kani::stub(backtrace::backtrace::trace, crate::p_synth::trace_stub)] #[kani::unwind(12)] synth_arbitrary_5 => p_synth::arbitrary::<_, 5>;
         #[kani::unwind(300)] synth_txt_0 => p_synth::txt_chunks::<_, 0>;
         #[kani::unwind(300)] synth_txt_1 => p_synth::txt_chunks::<_, 1>;
         #[kani::unwind(600)] synth_txt_510 => p_synth::txt_chunks::<_, 510>;
         #[kani::unwind(600)] synth_txt_511 => p_synth::txt_chunks::<_, 511>;
-        #[kani::unwind(140)] synth_insert_aaaa_an => p_synth::insert_text::<_, skel_gen::SkRAAaaa, 1, 1>;
-        #[kani::unwind(140)] synth_insert_ns_ns => p_synth::insert_text::<_, skel_gen::SkRAAaaa, 2, 2>;
-        #[kani::unwind(140)] synth_insert_cname_an => p_synth::insert_text::<_, skel_gen::SkRAAaaa, 1, 3>;
-        #[kani::unwind(140)] synth_insert_ptr_ar => p_synth::insert_text::<_, skel_gen::SkRAAaaa, 3, 4>;
-        #[kani::unwind(160)] synth_insert_soa_ns => p_synth::insert_text::<_, skel_gen::SkRAAaaa, 2, 6>;
-        #[kani::unwind(140)] synth_insert_ds_an => p_synth::insert_text::<_, skel_gen::SkRAAaaa, 1, 7>;
+        #[kani::stub(backtrace::backtrace::trace, crate::p_synth::trace_stub)] #[kani::unwind(140)] synth_insert_aaaa_an => p_synth::insert_text::<_, skel_gen::SkRAAaaa, 1, 1>;
+        #[kani::stub(backtrace::backtrace::trace, crate::p_synth::trace_stub)] #[kani::unwind(140)] synth_insert_ns_ns => p_synth::insert_text::<_, skel_gen::SkRAAaaa, 2, 2>;
+        #[kani::stub(backtrace::backtrace::trace, crate::p_synth::trace_stub)] #[kani::unwind(140)] synth_insert_cname_an => p_synth::insert_text::<_, skel_gen::SkRAAaaa, 1, 3>;
+        #[kani::stub(backtrace::backtrace::trace, crate::p_synth::trace_stub)] #[kani::unwind(140)] synth_insert_ptr_ar => p_synth::insert_text::<_, skel_gen::SkRAAaaa, 3, 4>;
+        #[kani::stub(backtrace::backtrace::trace, crate::p_synth::trace_stub)] #[kani::unwind(160)] synth_insert_soa_ns => p_synth::insert_text::<_, skel_gen::SkRAAaaa, 2, 6>;
+        #[kani::stub(backtrace::backtrace::trace, crate::p_synth::trace_stub)] #[kani::unwind(140)] synth_insert_ds_an => p_synth::insert_text::<_, skel_gen::SkRAAaaa, 1, 7>;
     }
 }
 
